@@ -370,6 +370,7 @@ def C16(ctx):
         nsites, nfun = rules_alloc.check_alloc(ctx, m, cfg, set(), only=only)
         ctx.floor("R-ALLOC", "allocation sites on the multipolygon path (%s)" % cfg, nsites, 7)
         rules_linked.check(ctx, m, cfg)
+        ctx.floor("R-OWN", "addNewLinkedPolygon call sites (%s)" % cfg, rules_linked.check_tail_protocol(ctx, m, cfg), 1)
     ctx.assumptions += ["allocation failure inside linkedGeo.c / vertexGraph.c is an assert (compiled out with NDEBUG): NULL results are not tested there, so only leak / double-free typestate applies",
                         "the outline itself (loop count, winding, area) is not decided: it depends on bit-level agreement of vertex coordinates and a float hash"]
 
